@@ -172,4 +172,21 @@ CLAIMS = {
         'not_decided': '"exactly the complete records" for all byte strings; cross-session id consistency as a '
                        'run-time invariant; padding arithmetic values.',
     },
+    'C12': {
+        'design': '5.12',
+        'technique': 'RejectIf guards + error-origin discipline + scope/lookup-order dominance + compile-fail witnesses + partition counters + canonicalise-before-intern and escape-taint provenance over clang CFG facts',
+        'decides': 'each documented constraint (duplicate output, unknown rule/pool, duplicate pool/rule, missing '
+                   'command, non-reserved rule variable, rspfile pair, pool depth, empty path, no outputs, unknown '
+                   'default, unexpected/ERROR token) has a branch whose violating side cannot reach success; every '
+                   'failure return forwards a failed callee or follows Lexer::Error and real_main exits 1; include '
+                   'uses the including scope, subninja a fresh child, assigned on every path before the sub-parser '
+                   'loads; lookup order own bindings -> rule binding (evaluated in the edge env) -> parents, with '
+                   '$in/$in_newline/$out first; BindingEnv stores only evaluated strings and Rule only EvalStrings '
+                   '(compile-fail), build-level values are evaluated in the enclosing scope and paths in the edge '
+                   'scope; input kinds are collected in order with their counters, stored after all AddIn calls and '
+                   'kept in sync by later erases; manifest, default, command-line and clean paths are canonicalised '
+                   'before interning and no shell-escaped lookup feeds a node identity or file-system call.',
+        'not_decided': 'that the evaluated graph equals the one defined by the manual for every manifest; the lexer\'s '
+                       'token grammar (varname alphabet, $-escapes) beyond the sentinel proof of C13.',
+    },
 }
